@@ -40,6 +40,19 @@ def one(rng, with_past=False):
     out = gram.enc_grammar(g) + " # " + gram.enc_lexicon(lex)
     lines = [Line("corr", "extract", [enc], out),
              Line("pred", "P.C06", [enc, gram.enc_grammar(g), gram.enc_lexicon(lex)])]
+    # fan_out of every extracted linearization (at most a dozen per case)
+    seen = 0
+    for f in g:
+        for lin in g[f]:
+            if seen >= 12:
+                break
+            seen += 1
+            try:
+                vec = ",".join(str(x) for x in grammaranalysis.fan_out(lin))
+            except Exception as e:
+                vec = proto.err_name(e)
+            lines.append(Line("corr", "fan_out", [gram.enc_lin(lin)], vec))
+            lines.append(Line("pred", "P.C06.fanout", [gram.enc_lin(lin), vec]))
     cf = grammaranalysis.is_contextfree(g)
     lines.append(Line("corr", "is_contextfree", [gram.enc_grammar(g)], "t" if cf else "f"))
     lines.append(Line("pred", "P.C06.cf", [enc, "t" if cf else "f"]))
